@@ -144,6 +144,10 @@ func (x *Exec) setupEntry() (*State, error) {
 	}
 	fr := x.pushFrame(st, fn, args, nil, binds)
 	fr.contract = ct
+	x.entry = map[string]Value{}
+	for k, v := range fr.params {
+		x.entry[k] = v
+	}
 	for _, f := range facts {
 		st.assume(f)
 	}
@@ -222,8 +226,17 @@ func VerifyFunc(prog *Program, db *ContractDB, fn *ssa.Function, ct *Contract, c
 		return
 	}
 	// vacuity: the precondition is satisfiable
+	var prefs []*Term
+	{
+		qc := map[*Term]bool{}
+		for _, f := range st.pc {
+			if !hasQuant(f, qc) {
+				prefs = append(prefs, f)
+			}
+		}
+	}
 	x.obls = append(x.obls, &Obligation{Name: x.oblName(st, "cover:pre", "", nil), Func: res.Label, Kind: "cover",
-		Assume: append([]*Term(nil), st.pc...), Bank: x.b, Expect: "sat", Info: "precondition is satisfiable", Property: propsOf(ct)})
+		Assume: prefs, Bank: x.b, Expect: "sat", Info: "precondition is satisfiable", Property: propsOf(ct)})
 	x.paths = 1
 	x.work = []*State{st}
 	x.run()
@@ -235,13 +248,22 @@ func VerifyFunc(prog *Program, db *ContractDB, fn *ssa.Function, ct *Contract, c
 		if len(cands) == 0 {
 			x.errs = append(x.errs, "no return reachable")
 		} else {
-			// reachable-return cover: disjunction of (up to 8) path conditions
+			// reachable-return cover: disjunction of (up to 8) path conditions; quantified facts
+			// are left out (satisfiability with quantifiers is out of the solvers' reach), so this
+			// guards against contradictions in the quantifier-free part of requires/assumed ensures
+			qcache := map[*Term]bool{}
 			var ds []*Term
 			for i, c := range cands {
 				if i >= 8 {
 					break
 				}
-				ds = append(ds, x.b.And(c.pc...))
+				var fs []*Term
+				for _, f := range c.pc {
+					if !x.defFacts[f] && !hasQuant(f, qcache) {
+						fs = append(fs, f)
+					}
+				}
+				ds = append(ds, x.b.And(fs...))
 			}
 			x.obls = append(x.obls, &Obligation{Name: x.oblName(st, "cover:return", "", nil), Func: res.Label, Kind: "cover",
 				Assume: []*Term{x.b.Or(ds...)}, Bank: x.b, Expect: "sat", Info: "a return is reachable under the assumed contracts", Property: propsOf(ct)})
@@ -333,6 +355,31 @@ func (x *Exec) groundAxioms(seen map[*Term]bool) []*Term {
 			out = append(out, b.mk("<", SBool, "", nil, b.Int(0), t))
 			out = append(out, b.mk("=", SBool, "", nil, b.App("tag!", SInt, t), b.Int(0)))
 		}
+	}
+	// byte decomposition of 64-bit values
+	byteOf := map[*Term]bool{}
+	for _, t := range ts {
+		if t.Op == "app" && strings.HasPrefix(t.Name, "byte!") && !t.bound {
+			byteOf[t.Args[0]] = true
+		}
+	}
+	var bvs []*Term
+	for v := range byteOf {
+		bvs = append(bvs, v)
+	}
+	sort.Slice(bvs, func(i, j int) bool { return bvs[i].id < bvs[j].id })
+	for _, v := range bvs {
+		sum := []*Term{}
+		for k := 0; k < 8; k++ {
+			bk := b.App(fmt.Sprintf("byte!%d", k), SInt, v)
+			out = append(out, b.mk("<=", SBool, "", nil, b.Int(0), bk), b.mk("<=", SBool, "", nil, bk, b.Int(255)))
+			if k == 0 {
+				sum = append(sum, bk)
+			} else {
+				sum = append(sum, b.mk("*", SInt, "", nil, b.IntB(pow2(uint(8*k))), bk))
+			}
+		}
+		out = append(out, b.mk("=", SBool, "", nil, v, b.mk("+", SInt, "", nil, sum...)))
 	}
 	for i := 0; i < len(globs); i++ {
 		for j := i + 1; j < len(globs); j++ {
@@ -542,4 +589,21 @@ func (x *Exec) learnBounds(t *Term) {
 			b.bcache = map[*Term][2]*big.Int{}
 		}
 	}
+}
+
+func hasQuant(t *Term, cache map[*Term]bool) bool {
+	if v, ok := cache[t]; ok {
+		return v
+	}
+	r := t.Op == "forall" || t.Op == "exists"
+	if !r {
+		for _, a := range t.Args {
+			if hasQuant(a, cache) {
+				r = true
+				break
+			}
+		}
+	}
+	cache[t] = r
+	return r
 }
